@@ -366,6 +366,27 @@ impl SwiftField for Field32 {
         }
     }
 
+    fn parse_with_variant(
+        value: &str,
+        variant: Option<&str>,
+        _field_tag: Option<&str>,
+    ) -> crate::Result<Self>
+    where
+        Self: Sized,
+    {
+        match variant {
+            Some("A") => Ok(Field32::A(Field32A::parse(value)?)),
+            Some("B") => Ok(Field32::B(Field32B::parse(value)?)),
+            Some("C") => Ok(Field32::C(Field32C::parse(value)?)),
+            Some("D") => Ok(Field32::D(Field32D::parse(value)?)),
+            // No option letter given: fall back to content-based detection
+            None => Self::parse(value),
+            Some(other) => Err(ParseError::InvalidFormat {
+                message: format!("Field 32 has no option '{}'", other),
+            }),
+        }
+    }
+
     fn to_swift_string(&self) -> String {
         match self {
             Field32::A(field) => field.to_swift_string(),
@@ -408,6 +429,25 @@ impl SwiftField for Field32AB {
         Err(ParseError::InvalidFormat {
             message: "Field 32 must be either format 32A (YYMMDD + Currency + Amount) or 32B (Currency + Amount)".to_string(),
         })
+    }
+
+    fn parse_with_variant(
+        value: &str,
+        variant: Option<&str>,
+        _field_tag: Option<&str>,
+    ) -> crate::Result<Self>
+    where
+        Self: Sized,
+    {
+        match variant {
+            Some("A") => Ok(Field32AB::A(Field32A::parse(value)?)),
+            Some("B") => Ok(Field32AB::B(Field32B::parse(value)?)),
+            // No option letter given: fall back to content-based detection
+            None => Self::parse(value),
+            Some(other) => Err(ParseError::InvalidFormat {
+                message: format!("Field 32 has no option '{}'", other),
+            }),
+        }
     }
 
     fn to_swift_string(&self) -> String {
@@ -471,10 +511,11 @@ impl SwiftField for Field32AmountCD {
                 let field = Field32D::parse(value)?;
                 Ok(Field32AmountCD::D(field))
             }
-            _ => {
-                // No variant specified, fall back to default parse behavior
-                Self::parse(value)
-            }
+            // No option letter given: fall back to content-based detection
+            None => Self::parse(value),
+            Some(other) => Err(ParseError::InvalidFormat {
+                message: format!("Field 32 has no option '{}'", other),
+            }),
         }
     }
 
